@@ -7,7 +7,7 @@ HERE = os.path.dirname(os.path.dirname(os.path.abspath(__file__)))
 CHECKS = {
  "C01": ("runtime monitor: exact even-odd point-set membership oracle + inclusion-exclusion area identities over generated operand pairs and all receiver/argument types",
          "Generated valid operand pairs in general position (all seven relative configurations, all nine receiver/argument type pairs the shapes admit) are run through Intersection/Union/Difference/XOr (+ reverse difference); each result is judged at up to 96 margin points by the harness's own exact even-odd membership, by the four inclusion-exclusion area identities with exact operand areas, by ring closure, by the empty-result rule, and Polygonal.Area()/Point.Within on results are compared with the harness's values.",
-         "Operand validity and general position are enforced by the harness's exact predicates; membership is only judged at points with a 1e-7*diameter margin; the external clipper is exercised through geom's API only. Two extra phases (near-coincident operands, coordinates of magnitude 1e-13..1e-10) exhibit two defects of that clipper; they are listed in known_findings.json, print KNOWN-FINDING and do not fail the run.", "§4 C01"),
+         "Operand validity and general position are enforced by the harness's exact predicates; membership is only judged at points with a 1e-7*diameter margin; the external clipper is exercised through geom's API only. Three extra phases (near-coincident operands, coordinates of magnitude 1e-13..1e-10, coordinates of magnitude 1e154..1e160) exhibit three defects of that clipper; they are listed in known_findings.json, print KNOWN-FINDING and do not fail the run.", "§4 C01"),
  "C02": ("runtime monitor: exact integer/rational crossing-number and on-segment oracle; complete enumeration of a small grid sub-space in the thorough tier",
          "Every point of the half-integer grid is classified against unfiltered grid polygons (self-intersecting, degenerate, unclosed, clockwise, multi-ring, multi-member, boxes) and compared with an exact oracle; float polygons (including edges whose end ordinates differ by one ulp from the query ordinate) are judged at margin points in exact rational arithmetic; MultiPoint/LineString/MultiLineString/Polygon receivers are checked against 'Outside iff some vertex is Outside'. Thorough additionally enumerates all triangles and quadrilaterals on the 4x4 grid against all 49 half-grid points.",
          "Exactness of the oracle rests on math/big and a Shewchuk-style float filter; a ring counts when it stores >= 3 vertices.", "§4 C02"),
